@@ -262,7 +262,9 @@ BRACES = {"juniper": ";", "ribbon": ";", "nokia": ""}
 
 
 def parse_formatter_diff(lines, vendor):
-    """`<sign> <indentation><row>`; brace vendors: `row {` ... `}` and `row;`"""
+    """`<sign> <indentation><row>`; brace vendors: `row {` ... `}` and `row;`; indentation vendors: nesting by the offside
+    rule, a row that opens a block carries the vendor's block marker (formatter._block_begin: "/" for RouterOS, nothing for
+    the others), which is not part of the row"""
     root = []
     if vendor in BRACES:
         end = BRACES[vendor]
@@ -297,6 +299,16 @@ def parse_formatter_diff(lines, vendor):
         node = [sign, body[ind:], []]
         stack[-1][1].append(node)
         stack.append((ind, node[2]))
+    marker = formatter(vendor)._block_begin  # pylint: disable=protected-access
+
+    def unmark(nodes):
+        for node in nodes:
+            if node[2] and marker:
+                if not node[1].endswith(marker):
+                    raise ValueError("block row without the block marker %r: %r" % (marker, node[1]))
+                node[1] = node[1][:-len(marker)]
+            unmark(node[2])
+    unmark(root)
     return root
 
 
